@@ -687,7 +687,13 @@ pub enum Nav<'a> {
 /// Follow one step in the model.
 pub fn nav_step<'a>(shape: &'a Shape, val: &'a mut Val, step: Step) -> Nav<'a> {
     match (shape, val, step) {
-        (Shape::Struct(_, fs), Val::Struct(_, vs), Step::Field(i)) if i < fs.len() => Nav::Found(&fs[i], &mut vs[i]),
+        (Shape::Struct(_, fs), Val::Struct(_, vs), Step::Field(i)) => {
+            if i < fs.len() && i < vs.len() {
+                Nav::Found(&fs[i], &mut vs[i])
+            } else {
+                Nav::Bad
+            }
+        }
         (Shape::UList(e), Val::UList(vs), Step::Elem(i)) => {
             if i < vs.len() {
                 Nav::Found(e, &mut vs[i])
@@ -695,9 +701,15 @@ pub fn nav_step<'a>(shape: &'a Shape, val: &'a mut Val, step: Step) -> Nav<'a> {
                 Nav::IndexErr
             }
         }
-        (Shape::UMap(_, e), Val::UMap(kvs), Step::Elem(i)) if i < kvs.len() => Nav::Found(e, &mut kvs[i].1),
-        (Shape::Enum(vars), Val::Enum(i, Some(p)), Step::Variant) => match &vars[*i].1 {
-            Some(ps) => Nav::Found(ps, p),
+        (Shape::UMap(_, e), Val::UMap(kvs), Step::Elem(i)) => {
+            if i < kvs.len() {
+                Nav::Found(e, &mut kvs[i].1)
+            } else {
+                Nav::Bad
+            }
+        }
+        (Shape::Enum(vars), Val::Enum(i, Some(p)), Step::Variant) => match vars.get(*i).and_then(|x| x.1.as_ref()) {
+            Some(ps) => Nav::Found(ps, &mut **p),
             None => Nav::Bad,
         },
         _ => Nav::Bad,
